@@ -223,6 +223,12 @@ pub fn explore<M: Model>(m: &M, caps: &Caps, seed: u64) -> Outcome {
             out.cap_hit = Some(format!("depth cap {}", caps.max_depth));
             break;
         }
+        if out.viol_counts.values().sum::<u64>() > 20_000 {
+            // the tree is broken in this configuration; more witnesses add nothing
+            exhaustive = false;
+            out.cap_hit = Some("stopped after 20000 violating transitions".to_string());
+            break;
+        }
         if seen.len() > caps.max_states {
             exhaustive = false;
             out.cap_hit = Some(format!("state cap {}", caps.max_states));
